@@ -101,6 +101,11 @@ def compile_ir(work, q, defs):
         rc, out, dt, to = _sh(cmd, timeout=300)
         if rc != 0:
             ent['err'] = 'clang failed:\n' + out[-3000:]
+        else:
+            # canonical loops (single latch per loop) so that every natural loop is exactly one backward goto
+            rc, out, dt2, to = _sh(['opt-14', '-S', '-passes=loop-simplify', ll, '-o', ll + '.ls'], timeout=300)
+            if rc != 0: ent['err'] = 'opt loop-simplify failed:\n' + out[-2000:]
+            else: os.replace(ll + '.ls', ll)
         ent['ll'] = ll
         ent['clang_s'] = dt
         return key, ent
@@ -174,7 +179,9 @@ def run_cbmc(work, q, cfile, entry, items, backend, timeout, trace_prop=None):
     if q.leak: cmd += ['--memory-leak-check']
     if items: cmd += ['--unwindset', ','.join(items)]
     cmd += ['--unwind', str(q.default_unwind)]
-    if trace_prop:
+    if trace_prop == '*':
+        cmd += ['--trace']
+    elif trace_prop:
         cmd += ['--trace', '--property', trace_prop]
     env = dict(os.environ)
     if backend == 'cvc5int':
@@ -387,6 +394,8 @@ def run_query(work, q, kf_open, seed=0, do_selfcheck=True):
         confirmed = None
         for x in real[:4]:
             rc2, out2, dt2, to2, _ = run_cbmc(work, q, cfile, q.entry, items, used, q.timeout, trace_prop=x['prop'])
+            if 'Invalid User Input' in out2:   # unwinding assertions have no id before symex: trace everything
+                rc2, out2, dt2, to2, _ = run_cbmc(work, q, cfile, q.entry, items, used, q.timeout, trace_prop='*')
             tape = extract_tape(out2, x['prop'])
             ids = re.findall(r'harness assertion (\d+)', x['desc'])
             if q.replay == 'none':
@@ -403,9 +412,13 @@ def run_query(work, q, kf_open, seed=0, do_selfcheck=True):
             return done('CEX', '%s: %s [%s]' % (x['prop'], x['desc'], confirmed[1]))
         if unw and not hard and attempt < 3:
             # bound too small for this code: retry with doubled bounds (never reported as success or violation)
-            scale *= 2
-            items = ['%s:%d' % (it.rsplit(':', 1)[0], int(it.rsplit(':', 1)[1]) * 2) for it in items]
-            r['unwind_retry'] = scale
+            # only the loops whose unwinding assertion failed are raised (doubled)
+            bad = set()
+            for x in unw:
+                m = re.match(r'(.*)\.unwind\.(\d+)$', x['prop'])
+                if m: bad.add('%s.%s' % (m.group(1), m.group(2)))
+            items = ['%s:%d' % (it.rsplit(':', 1)[0], int(it.rsplit(':', 1)[1]) * (2 if it.rsplit(':', 1)[0] in bad else 1)) for it in items]
+            r['unwind_retry'] = sorted(bad)
             continue
         kinds = sorted(set(x['kind'] for x in real))
         if kinds == ['ptrovf']:
